@@ -15,7 +15,7 @@ import Isotp.Proofs.DuplexLive7
     inbox ends are redone (`gRxLoop_ok`, `gProcLoop_ok`, and `gProcLoopTx_ok` for the transmit-only pass `absPassTx`).
   * `GInv`: the invariant of the abstract network with links; `gstep_ok`: EVERY operation succeeds (as long as the
     round number is within the timeouts), keeps the invariant and does not increase the potential `gM` (= `netM`).
-  * `canon_ok`: the canonical round from ANY invariant state succeeds and ends in a state with empty links that
+  * `gcanon_ok`, `g_terminates`: the canonical round from ANY invariant state succeeds and ends in a state with empty links that
     satisfies the round-synchronous invariant `NInv` of DuplexLive5 — from where `abs_terminates` applies.
 -/
 namespace Isotp.NoStuck
